@@ -213,6 +213,20 @@ func rawBytes(kind string, n int) []byte {
 		return append([]byte("d5:files"), append(append(rep("l", n), rep("e", n)...), 'e')...)
 	case "long-string": // declared length far beyond the data
 		return []byte(fmt.Sprintf("d4:name%d:abce", n))
+	case "overflow-string": // a declared length that overflows a 63/64-bit accumulator; n selects value and position
+		lens := []string{"9223372036854775807", "9223372036854775808", "9223372036854775829", "18446744073709551615",
+			"18446744073709551616", "18446744073709551636", "99999999999999999999", "340282366920938463463374607431768211456"}
+		l := lens[n%len(lens)]
+		switch (n / len(lens)) % 4 {
+		case 0:
+			return []byte("d4:name" + l + ":abce")
+		case 1:
+			return []byte("d1:xl" + l + ":abcee")
+		case 2:
+			return []byte("d" + l + ":abce")
+		default:
+			return []byte("d1:ale1:bl" + l + ":e")
+		}
 	case "long-int":
 		return append(append([]byte("d6:lengthi"), rep("9", n)...), []byte("ee")...)
 	case "many-keys":
@@ -587,6 +601,9 @@ func genParse(r *Rng, n int, tier string) []Case {
 		add("raw kind=deep-list n=3000000 via=" + via)
 		add("raw kind=deep-unknown n=3000000 via=" + via)
 		add("raw kind=long-string n=99999999999 via=" + via)
+		for k := 0; k < 32; k++ {
+			add(fmt.Sprintf("raw kind=overflow-string n=%d via=%s", k, via))
+		}
 		add("raw kind=long-int n=5000 via=" + via)
 		add("raw kind=many-keys n=5000 via=" + via)
 		add("raw kind=empty n=0 via=" + via)
